@@ -9,6 +9,7 @@ import (
 	"github.com/LiskHQ/lisk-engine/pkg/blockchain"
 	"github.com/LiskHQ/lisk-engine/pkg/consensus/certificate"
 	"github.com/LiskHQ/lisk-engine/pkg/consensus/liskbft"
+	"github.com/LiskHQ/lisk-engine/pkg/consensus/sync"
 	"github.com/LiskHQ/lisk-engine/pkg/db"
 	"github.com/LiskHQ/lisk-engine/pkg/db/diffdb"
 	"github.com/LiskHQ/lisk-engine/pkg/event"
@@ -86,4 +87,14 @@ func VerifDecodePostSingleCommits(data []byte) (certificate.SingleCommits, error
 		return nil, err
 	}
 	return m.SingleCommits, nil
+}
+
+// VerifObserveSyncDeletes wires the syncer once more, exactly as Init does, with the removal callback passing through
+// an observer: the harness sees which removals the synchronization asked to keep as temporary blocks.
+func (c *Executer) VerifObserveSyncDeletes(f func(b *blockchain.Block, saveTemp bool)) {
+	c.syncer = sync.NewSyncer(c.chain, c.blockSlot, c.conn, c.logger.With("module", "syncer"), c.processValidated,
+		func(ctx context.Context, b *blockchain.Block, saveTemp bool) error {
+			f(b, saveTemp)
+			return c.deleteBlock(ctx, b, saveTemp)
+		})
 }
